@@ -91,6 +91,28 @@ Example C11_reuse_reads_zero :
   (cell t4 0 0, cell t4 0 1, cell t5 0 0, cell t5 0 1, cell t6 0 1, Z.of_nat (t_cap t6)) = (77, 88, 88, 0, 0, 2)%Z.
 Proof. vm_compute. reflexivity. Qed.
 
+(** The sample shapes of harness/gcsafe TestIsTrivialClassification, in the same order: the Go test compares
+    ecs.isTrivial on Go types of these shapes with this vector (and with an oracle that enumerates every
+    reflect.Kind). A component holding only a closure or an unsafe pointer is NOT trivial (repaired defect 65b60f3). *)
+Example C11_classification_samples :
+  let inner := TStruct [TScalar; TArray 2 TScalar] in
+  map is_trivial
+    [TScalar; TPtr; TSlice; TMap; TChan; TStruct [TIface]; TString; TFunc; TUnsafePtr; TStruct [TFunc];
+     TStruct [TUnsafePtr]; inner; TArray 3 inner; TArray 2 (TStruct [TScalar; TFunc]);
+     TStruct [inner; TStruct [TSlice]]; TStruct []; TScalar; TArray 0 TPtr]
+  = [true; false; false; false; false; false; false; false; false; false;
+     false; true; true; false; false; true; true; false].
+Proof. vm_compute. reflexivity. Qed.
+
+Theorem C11_func_and_unsafe_pointer_components_are_not_trivial :
+  is_trivial (TStruct [TFunc]) = false /\ is_trivial (TStruct [TScalar; TUnsafePtr]) = false /\
+  pointerish (TStruct [TFunc]) /\ pointerish (TStruct [TScalar; TUnsafePtr]).
+Proof.
+  split; [reflexivity|]. split; [reflexivity|]. split.
+  - apply (P_field [TFunc] TFunc); [left; reflexivity|constructor].
+  - apply (P_field [TScalar; TUnsafePtr] TUnsafePtr); [right; left; reflexivity|constructor].
+Qed.
+
 (** One traversal of the dependency graph for all theorems of this file. *)
-Definition C11_all := (C11_fresh_row_reads_zero, C11_swap_remove_keeps_clean, C11_capacity_change_keeps_clean, C11_reset_zeroes_everything, C11_bulk_append_keeps_clean, C11_zeroing_strategies_agree, C11_is_trivial_exact).
+Definition C11_all := (C11_fresh_row_reads_zero, C11_swap_remove_keeps_clean, C11_capacity_change_keeps_clean, C11_reset_zeroes_everything, C11_bulk_append_keeps_clean, C11_zeroing_strategies_agree, C11_is_trivial_exact, C11_classification_samples, C11_func_and_unsafe_pointer_components_are_not_trivial).
 Print Assumptions C11_all.
